@@ -48,6 +48,7 @@ func Use(t *d.T) {
 	_ = d.T{} // L-CTOR01
 	_ = new(d.T) // L-CTOR02
 	var z d.T // L-CTOR03
+	// @ignore IMPL03
 	_ = z
 	_ = d.Helper{} // L-TONL01
 	_ = d.Mock() // L-TONL02
